@@ -3,11 +3,13 @@
 // fragmentation (cut set) x read-size pattern, groups the cases of one message by their complete
 // observable outcome (parsed fields as buffer offsets, header index, look-ups, body bytes, read
 // return codes) and writes
-//   {"e":"M", ...}   one line per message (bytes as small integers),
+//   {"e":"M", ...}   one line per message (bytes as small integers; for writer kinds also what was written),
 //   {"e":"O", ...}   one line per distinct (read sizes, outcome) of that message with the number of cases
 //                    that produced it, an example fragmentation and the largest number of socket calls,
-//   {"e":"D", ...}   a case whose outcome changed with the stale content of the receive buffer.
+//   {"e":"D", ...}   a case whose outcome changed with the stale content of the receive buffer,
+//   {"e":"L", ...}   a large message (run-length coded) with its outcomes (see big()).
 // spec/Trace_HttpFraming.tla judges the lines with the reference grammar of spec/HttpFramingOps.tla.
+// The receive buffer ends at an inaccessible page; a fault is recovered and recorded as outcome {"fatal":sig}.
 // vt-flags: -I/repo
 #include <photon/net/http/message.h>
 #include <photon/net/socket.h>
@@ -15,6 +17,7 @@
 #include "net/http/body.h"
 #include <sys/mman.h>
 #include <sys/uio.h>
+#include <setjmp.h>
 #include <map>
 #include <string>
 #include <vector>
@@ -23,15 +26,16 @@
 using namespace photon::net;
 using namespace photon::net::http;
 typedef std::string S;
+typedef std::vector<uint32_t> V32;
 
 // ------------------------------------------------------------------ fragmenting socket stream
 struct FragStream : public ISocketStream {
     const char* data = nullptr; size_t len = 0, pos = 0;
-    std::vector<uint32_t> cuts;          // ascending absolute positions where a fragment ends (end of data is implicit)
+    V32 cuts;                            // ascending absolute positions where a fragment ends (end of data is implicit)
     size_t ci = 0;
     long ops = 0; bool runaway = false, closed = false;
     S wr;                                // bytes written (writer side)
-    void set(const char* d, size_t n, const std::vector<uint32_t>& c, size_t start = 0) {
+    void set(const char* d, size_t n, const V32& c, size_t start = 0) {
         data = d; len = n; pos = start; cuts = c; ci = 0; ops = 0; runaway = closed = false; wr.clear();
     }
     ssize_t recv(void* buf, size_t count, int = 0) override {
@@ -77,8 +81,8 @@ struct FragStream : public ISocketStream {
     int getpeername(char*, size_t) override { return -1; }
 };
 
-struct Resp : public Response { using Response::Response; using Message::receive_header; using Message::partial_body; };
-struct Req : public Request { using Request::Request; using Message::receive_header; using Message::partial_body; };
+struct Resp : public Response { using Response::Response; using Message::receive_header; using Message::partial_body; using Message::send_header; };
+struct Req : public Request { using Request::Request; using Message::receive_header; using Message::partial_body; using Message::send_header; };
 
 // ------------------------------------------------------------------ buffers (the end abuts an inaccessible page)
 static const size_t ARENA = 1 << 17;
@@ -97,17 +101,27 @@ static void use_cap(size_t cap) { g_cap = cap; g_buf = g_arena_end - cap; }
 static long off(const char* p) { if (!p) return -1; long d = p - g_buf; return (d < 0 || d > (long)g_cap) ? -2 : d; }
 static S ol(std::string_view v) { return "[" + std::to_string(off(v.data())) + "," + std::to_string((long)v.size()) + "]"; }
 static S bytes(const S& s) { vt::Arr a; for (unsigned char c : s) a.i(c); return a.str(); }
-static S ints(const std::vector<uint32_t>& v) { vt::Arr a; for (auto x : v) a.i(x); return a.str(); }
-static S rle(const std::vector<long>& v) {
+static S ints(const V32& v) { vt::Arr a; for (auto x : v) a.i(x); return a.str(); }
+static S longs(const std::vector<long>& v) { vt::Arr a; for (auto x : v) a.i(x); return a.str(); }
+template <class T> static S rle(const T& v) {
     vt::Arr a;
-    for (size_t i = 0; i < v.size();) { size_t j = i; while (j < v.size() && v[j] == v[i]) j++; a.raw("[" + std::to_string(v[i]) + "," + std::to_string(j - i) + "]"); i = j; }
+    for (size_t i = 0; i < v.size();) { size_t j = i; while (j < v.size() && v[j] == v[i]) j++; a.raw("[" + std::to_string((long)v[i]) + "," + std::to_string(j - i) + "]"); i = j; }
     return a.str();
 }
+static S rle_bytes(const S& s) {
+    vt::Arr a;
+    for (size_t i = 0; i < s.size();) { size_t j = i; while (j < s.size() && s[j] == s[i]) j++; a.raw("[" + std::to_string((int)(unsigned char)s[i]) + "," + std::to_string(j - i) + "]"); i = j; }
+    return a.str();
+}
+
+// ------------------------------------------------------------------ fault recovery
+static sigjmp_buf g_jb; static volatile int g_armed = 0;
+static void on_fault(int sig) { if (g_armed) { g_armed = 0; siglongjmp(g_jb, sig); } vt::on_fatal(sig); }
 
 // ------------------------------------------------------------------ reading a body to its end
 static const size_t RS_INF = 60000;
 struct BodyObs { S body; std::vector<long> rets; bool noend = false, over = false; };
-static void drain(IStream* st, const std::vector<uint32_t>& rs, size_t bound, BodyObs& o) {
+static void drain(IStream* st, const V32& rs, size_t bound, BodyObs& o) {
     size_t k = 0;
     for (size_t it = 0;; it++) {
         if (it > bound) { o.noend = true; return; }
@@ -126,8 +140,9 @@ static void drain(IStream* st, const std::vector<uint32_t>& rs, size_t bound, Bo
         if (n > 0) o.body.append(g_rd, std::min<size_t>(n, RDMAX));
     }
 }
+static bool g_big = false;                 // large message: bodies run-length coded
 static S body_json(const BodyObs& o) {
-    S j = "\"body\":" + bytes(o.body) + ",\"rets\":" + rle(o.rets);
+    S j = (g_big ? "\"bodyr\":" + rle_bytes(o.body) : "\"body\":" + bytes(o.body)) + ",\"rets\":" + rle(o.rets);
     if (o.noend) j += ",\"noend\":true";
     if (o.over) j += ",\"over\":true";
     return j;
@@ -135,9 +150,11 @@ static S body_json(const BodyObs& o) {
 
 // ------------------------------------------------------------------ one case = (message, fragmentation, read sizes, fill)
 struct Msg {
-    S kind;            // resp | resph (response to HEAD) | req | cbody | lbody | xbody
+    S kind;            // resp | resph (response to HEAD) | req | cbody | lbody | xbody | wchunk | wlen | wmsg
     S bytes;           // what the peer sends
-    long n = 0;        // lbody: declared length
+    long n = 0;        // lbody / wlen: declared length
+    S extra;           // further JSON fields of the M line
+    S rkind() const { return kind == "wchunk" ? "cbody" : kind == "wlen" ? "lbody" : kind == "wmsg" ? "resp" : kind; }
 };
 static FragStream g_st;
 
@@ -149,8 +166,9 @@ template <class M> static S head_json(M& m, int rh) {
     j += ",\"ver\":" + ol(m.version());
     vt::Arr hs, lk;
     int cnt = 0;
-    for (auto it = m.headers.begin(); it != m.headers.end() && cnt < 5000; it++, cnt++) {
+    for (auto it = m.headers.begin(); it != m.headers.end() && cnt < 9000; it++, cnt++) {
         auto k = it.first(), v = it.second();
+        if (g_big && cnt >= 6) continue;          // large messages: the count and the first entries
         hs.raw("[" + std::to_string(off(k.data())) + "," + std::to_string(k.size()) + "," + std::to_string(off(v.data())) + "," + std::to_string(v.size()) + "]");
         long ko = off(k.data());
         if (ko >= 0 && ko + k.size() <= g_cap && k.size() < 200 && cnt < 40) {
@@ -158,24 +176,24 @@ template <class M> static S head_json(M& m, int rh) {
             lk.raw(it2 == m.headers.end() ? S("[-1,0]") : ol(it2.second()));
         } else lk.raw("[-3,0]");
     }
-    j += ",\"hs\":" + hs.str() + ",\"lk\":" + lk.str();
+    j += ",\"hs\":" + hs.str() + ",\"lk\":" + lk.str() + ",\"nh\":" + std::to_string(cnt);
     j += S(",\"nf\":") + (m.headers.find("Zq-None") == m.headers.end() ? "true" : "false");
     j += S(",\"ch\":") + (m.headers.chunked() ? "true" : "false");
     size_t bs = m.body_size();
     j += ",\"bs\":" + std::to_string(bs == SIZE_MAX ? -1L : (long)std::min<size_t>(bs, 1000000000));
-    j += ",\"pb\":" + ol(m.partial_body());
+    j += ",\"pbo\":" + std::to_string(off(m.partial_body().data()));
     return j;
 }
 
-// runs one case and returns the outcome as a JSON object (without the braces)
-static S run_case(const Msg& m, const std::vector<uint32_t>& cuts, bool pf, const std::vector<uint32_t>& rs, int fill, long* ops) {
+// fill: value 0..255 (+256: the whole buffer is filled, else only the part the message and a little more will occupy)
+static S run_case(const Msg& m, const V32& cuts, bool pf, const V32& rs, int fill, long* ops) {
     size_t L = m.bytes.size();
     size_t bound = L + 8;
-    BodyObs bo; S j;
-    if (m.kind == "resp" || m.kind == "resph" || m.kind == "req") {
-        memset(g_buf, fill, std::min(g_cap, L + 64));
+    BodyObs bo; S j; S rk = m.rkind();
+    if (rk == "resp" || rk == "resph" || rk == "req") {
+        memset(g_buf, fill & 255, (fill & 256) ? g_cap : std::min(g_cap, L + 64));
         g_st.set(m.bytes.data(), L, cuts);
-        if (m.kind == "req") {
+        if (rk == "req") {
             Req r(g_buf, (uint16_t)g_cap); r.reset(&g_st, false);
             int rh = r.receive_header();
             j = head_json(r, rh);
@@ -185,7 +203,7 @@ static S run_case(const Msg& m, const std::vector<uint32_t>& cuts, bool pf, cons
             }
         } else {
             Resp r(g_buf, (uint16_t)g_cap);
-            r.reset(g_buf, (uint16_t)g_cap, false, &g_st, false, m.kind == "resph" ? Verb::HEAD : Verb::GET);
+            r.reset(g_buf, (uint16_t)g_cap, false, &g_st, false, rk == "resph" ? Verb::HEAD : Verb::GET);
             int rh = r.receive_header();
             j = head_json(r, rh);
             if (rh == 0) {
@@ -195,14 +213,15 @@ static S run_case(const Msg& m, const std::vector<uint32_t>& cuts, bool pf, cons
         }
     } else {
         // body streams constructed directly; the first fragment is handed over as the partial body when pf
-        size_t p = 0; std::vector<uint32_t> c2 = cuts;
+        size_t p = 0; V32 c2 = cuts;
         if (pf) { p = cuts.empty() ? L : cuts[0]; if (!c2.empty()) c2.erase(c2.begin()); }
+        if (p > 4095) p = 4095;
         char* lb = g_arena_end - 4096;                 // the chunk reader uses 4096 bytes from the partial body on
-        memset(lb, fill, std::min<size_t>(4096, L + 64));
+        memset(lb, fill & 255, (fill & 256) ? 4096 : std::min<size_t>(4096, p + 64));
         memcpy(lb, m.bytes.data(), p);
         g_st.set(m.bytes.data(), L, c2, p);
-        IStream* s = m.kind == "cbody" ? new_chunked_body_read_stream(&g_st, {lb, p})
-                   : new_body_read_stream(&g_st, {lb, p}, m.kind == "xbody" ? SIZE_MAX : (size_t)m.n);
+        IStream* s = rk == "cbody" ? new_chunked_body_read_stream(&g_st, {lb, p})
+                   : new_body_read_stream(&g_st, {lb, p}, rk == "xbody" ? SIZE_MAX : (size_t)m.n);
         drain(s, rs, bound, bo); j = body_json(bo);
         delete s;
     }
@@ -210,18 +229,32 @@ static S run_case(const Msg& m, const std::vector<uint32_t>& cuts, bool pf, cons
     *ops = g_st.ops;
     return j;
 }
+static void clean_after(int fill) {        // a whole-buffer fill must not leak into the following cases
+    if (fill & 256) { memset(g_buf, 0, g_cap); }
+}
+static S guarded(const Msg& m, const V32& cuts, bool pf, const V32& rs, int fill, long* ops) {
+    int sig = sigsetjmp(g_jb, 0);
+    if (sig) { *ops = g_st.ops; clean_after(fill); return "\"fatal\":" + std::to_string(sig); }
+    g_armed = 1;
+    S o = run_case(m, cuts, pf, rs, fill, ops);
+    g_armed = 0;
+    clean_after(fill);
+    return o;
+}
 
 // ------------------------------------------------------------------ a message with all its cases
-struct Agg { long n = 0, mx = 0; std::vector<uint32_t> ex; bool expf = false; int exfill = 0; size_t order; };
+static long g_id = 0, g_cases = 0, g_dsupp = 0; static size_t g_dcap = 30;
+static std::map<S, size_t> g_dsig;     // D lines per signature (the same defect shows in thousands of cases)
+struct Agg { long n = 0, mx = 0; V32 ex; bool expf = false; int exfill = 0; };
 struct Runner {
     const Msg* m; long id;
     std::vector<int> fills;
     std::map<S, Agg> outs;   // key = rs json + outcome json
     std::vector<S> order;
     long cases = 0, deps = 0;
-    void one(const std::vector<uint32_t>& cuts, bool pf, const std::vector<uint32_t>& rs, bool allfills) {
+    void one(const V32& cuts, bool pf, const V32& rs, bool allfills) {
         long ops = 0;
-        S o = run_case(*m, cuts, pf, rs, fills[0], &ops);
+        S o = guarded(*m, cuts, pf, rs, fills[0], &ops);
         S key = "\"rs\":" + ints(rs) + ",\"o\":{" + o + "}";
         auto it = outs.find(key);
         if (it == outs.end()) { it = outs.emplace(key, Agg()).first; it->second.ex = cuts; it->second.expf = pf; it->second.exfill = fills[0]; order.push_back(key); }
@@ -229,13 +262,13 @@ struct Runner {
         cases++;
         if (allfills) for (size_t f = 1; f < fills.size(); f++) {
             long ops2 = 0;
-            S o2 = run_case(*m, cuts, pf, rs, fills[f], &ops2);
+            S o2 = guarded(*m, cuts, pf, rs, fills[f], &ops2);
             cases++;
-            if (o2 != o && deps < 3) {
-                deps++;
+            if (o2 == o) { it->second.n++; continue; }
+            S sig = m->rkind() + "/" + std::to_string(fills[f]) + "/" + o.substr(0, 12) + "/" + o2.substr(0, 12);
+            if (deps++ < 2 && g_dsig[sig]++ < g_dcap)
                 vt::Ev("D").i("id", id).raw("cuts", ints(cuts)).b("pf", pf).raw("rs", ints(rs)).i("fa", fills[0]).i("fb", fills[f])
                     .raw("a", "{" + o + "}").raw("b", "{" + o2 + "}");
-            } else if (o2 == o) { it->second.n++; }
         }
     }
     void flush() {
@@ -244,15 +277,15 @@ struct Runner {
             vt::Ev e("O"); e.i("id", id).i("n", a.n).i("mx", a.mx).raw("ex", ints(a.ex)).b("pf", a.expf).i("fill", a.exfill);
             e.j += "," + k;
         }
+        g_dsupp += deps;
     }
 };
 
-static long g_id = 0; static long g_cases = 0;
-static const std::vector<std::vector<uint32_t>> RS_STD = {{1}, {2}, {5}, {RS_INF}};
+static const std::vector<V32> RS_STD = {{1}, {2}, {5}, {(uint32_t)RS_INF}};
+static const std::vector<V32> RS_TWO = {{1}, {(uint32_t)RS_INF}};
 
-// every cut set with at most K cuts (positions 1..L-1), optionally thinned by a seeded coin for the largest size
 template <class F> static void cutsets(size_t L, int K, F f) {
-    std::vector<uint32_t> c;
+    V32 c;
     f(c);
     if (L < 2) return;
     for (uint32_t a = 1; a < L && K >= 1; a++) {
@@ -264,33 +297,43 @@ template <class F> static void cutsets(size_t L, int K, F f) {
     }
 }
 
-struct Plan { int K = 2; int rnd3 = 0; bool bytewise = true; std::vector<int> fills = {0}; int fillK = 1; std::vector<std::vector<uint32_t>> rss = RS_STD; };
+struct Plan {
+    int K = 2;                 // every cut set of at most K cuts
+    int rnd = 0;               // plus this many seeded random cut sets with 3..8 cuts (per read-size pattern)
+    bool bytewise = true;      // plus one byte per recv
+    std::vector<int> fills = {0};   // fills[0] for every case; the others for cut sets of at most fillK cuts and the bytewise one
+    int fillK = 1;
+    std::vector<V32> rss = RS_STD;
+};
+static const std::vector<int> FILLS3 = {0, '\r', 'x' + 256};     // zero, CR behind the data, a buffer without any NUL byte
 
 static void run_msg(const Msg& m, const Plan& pl, vt::Rng& rng) {
     long id = ++g_id;
     vt::note(m.kind + " #" + std::to_string(id));
     {
         vt::Ev e("M"); e.i("id", id).s("kind", m.kind).raw("msg", bytes(m.bytes));
-        if (m.kind == "lbody") e.i("dn", m.n);
+        if (m.kind == "lbody" || m.kind == "wlen") e.i("dn", m.n);
+        if (!m.extra.empty()) e.j += "," + m.extra;
     }
     memset(g_buf, 0, g_cap);
     Runner R; R.m = &m; R.id = id; R.fills = pl.fills;
     size_t L = m.bytes.size();
-    bool direct = !(m.kind == "resp" || m.kind == "resph" || m.kind == "req");
+    S rk = m.rkind();
+    bool direct = !(rk == "resp" || rk == "resph" || rk == "req");
     for (auto& rs : pl.rss) {
-        cutsets(L, pl.K, [&](const std::vector<uint32_t>& c) {
+        cutsets(L, pl.K, [&](const V32& c) {
             bool af = (int)c.size() <= pl.fillK && pl.fills.size() > 1;
             R.one(c, false, rs, af);
             if (direct) R.one(c, true, rs, af);
         });
-        for (int i = 0; i < pl.rnd3 && L > 4; i++) {       // seeded sample of larger cut sets
-            size_t k = 3 + rng.below(4); std::vector<uint32_t> c;
+        for (int i = 0; i < pl.rnd && L > 4; i++) {
+            size_t k = 3 + rng.below(6); V32 c;
             for (size_t q = 0; q < k; q++) c.push_back(1 + rng.below(L - 1));
             std::sort(c.begin(), c.end()); c.erase(std::unique(c.begin(), c.end()), c.end());
             R.one(c, direct && rng.coin(), rs, false);
         }
-        if (pl.bytewise && L > 1) {                          // one byte per recv
-            std::vector<uint32_t> c; for (uint32_t a = 1; a < L; a++) c.push_back(a);
+        if (pl.bytewise && L > 1) {
+            V32 c; for (uint32_t a = 1; a < L; a++) c.push_back(a);
             R.one(c, false, rs, pl.fills.size() > 1);
             if (direct) R.one(c, true, rs, false);
         }
@@ -299,13 +342,190 @@ static void run_msg(const Msg& m, const Plan& pl, vt::Rng& rng) {
     g_cases += R.cases;
 }
 
-// ------------------------------------------------------------------ scope
+// ------------------------------------------------------------------ scope builders
 static S chunk(size_t n, char base) { char h[32]; snprintf(h, sizeof h, "%zx\r\n", n); S s = h; for (size_t i = 0; i < n; i++) s += (char)(base + i % 23); return s + "\r\n"; }
 static S chunked_body(const std::vector<size_t>& sizes) { S s; char b = 'a'; for (auto n : sizes) { s += chunk(n, b); b = 'A'; } return s + "0\r\n\r\n"; }
-static S payload(size_t n) { S s; for (size_t i = 0; i < n; i++) s += (char)('a' + i % 26); return s; }
+static S payload(size_t n) { S s; for (size_t i = 0; i < n; i++) s += (char)('a' + i % 23); return s; }
+static void strings(const S& alpha, int maxlen, std::vector<S>& out) {
+    out.push_back("");
+    size_t start = 0;
+    for (int l = 1; l <= maxlen; l++) {
+        size_t end = out.size();
+        for (size_t i = start; i < end; i++) for (char c : alpha) out.push_back(out[i] + c);
+        start = end;
+    }
+}
+static std::vector<Msg> valid_heads() {
+    return {
+        {"resp", "HTTP/1.1 200 OK\r\nContent-Length: 5\r\n\r\nhello"},
+        {"resp", "HTTP/1.1 200 OK\r\nTransfer-Encoding: chunked\r\n\r\n3\r\nabc\r\n0\r\n\r\n"},
+        {"resp", "HTTP/1.1 200 OK\r\nConnection: close\r\n\r\nbye!"},
+        {"resp", "HTTP/1.0 200 OK\r\n\r\nxy"},
+        {"resp", "HTTP/1.1 404 Not Found\r\nB: 1\r\ncontent-length: 2\r\na:b\r\n\r\nhi"},
+        {"resp", "HTTP/1.1 204 No Content\r\n\r\n"},
+        {"resp", "HTTP/1.1 200 OK\r\nTRANSFER-ENCODING: chunked\r\nX-y:  z\r\n\r\na\r\n0123456789\r\n11\r\nABCDEFGHIJKLMNOPQ\r\n0\r\n\r\n"},
+        {"resp", "HTTP/1.1 200 \r\nContent-Type: t\r\nAuthorization: k\r\nContent-Length: 1\r\n\r\n!"},
+        {"resph", "HTTP/1.1 200 OK\r\nContent-Length: 5\r\n\r\n"},
+        {"req", "GET /a?b=1 HTTP/1.1\r\nHost: x\r\n\r\n"},
+        {"req", "POST /p HTTP/1.1\r\nContent-Length: 3\r\n\r\nabc"},
+        {"req", "PUT /u HTTP/1.1\r\nhost: h\r\nTransfer-Encoding: chunked\r\n\r\n2\r\nhi\r\n1\r\n!\r\n0\r\n\r\n"},
+    };
+}
+
+// ---- writers: the real write streams produce the wire bytes, the real readers read them back
+static Msg written_chunked(const std::vector<size_t>& sizes) {
+    FragStream st; IStream* w = new_chunked_body_write_stream(&st);
+    size_t total = 0; for (auto n : sizes) total += n;
+    S data = payload(total); std::vector<long> wrc; size_t at = 0;
+    for (auto n : sizes) { wrc.push_back(w->write(data.data() + at, n)); at += n; }
+    delete w;                                     // the destructor closes: last chunk
+    Msg m{"wchunk", st.wr};
+    vt::Arr sz; for (auto n : sizes) sz.i(n);
+    m.extra = "\"data\":" + bytes(data) + ",\"sizes\":" + sz.str() + ",\"wrc\":" + longs(wrc);
+    return m;
+}
+static Msg written_len(const std::vector<size_t>& sizes, size_t declared, bool vec) {
+    FragStream st; IStream* w = new_body_write_stream(&st, declared);
+    size_t total = 0; for (auto n : sizes) total += n;
+    S data = payload(total); std::vector<long> wrc; size_t at = 0;
+    for (auto n : sizes) {
+        if (vec) { struct iovec iov[2] = {{(void*)(data.data() + at), n / 2}, {(void*)(data.data() + at + n / 2), n - n / 2}}; wrc.push_back(w->writev(iov, 2)); }
+        else wrc.push_back(w->write(data.data() + at, n));
+        at += n;
+    }
+    delete w;
+    Msg m{"wlen", st.wr}; m.n = declared;
+    vt::Arr sz; for (auto n : sizes) sz.i(n);
+    m.extra = "\"data\":" + bytes(data) + ",\"sizes\":" + sz.str() + ",\"wrc\":" + longs(wrc);
+    return m;
+}
+// a whole response written through Response (set_result, headers, write, send)
+static Msg written_msg(bool chunked, const std::vector<size_t>& sizes, bool keep, const std::vector<std::pair<S, S>>& hdrs) {
+    static char wbuf[8192];
+    FragStream st;
+    size_t total = 0; for (auto n : sizes) total += n;
+    S data = payload(total); std::vector<long> wrc; size_t at = 0;
+    {
+        Resp w(wbuf, sizeof wbuf); w.reset(wbuf, sizeof wbuf, false, &st, false);
+        w.set_result(200, "OK");
+        for (auto& h : hdrs) w.headers.insert(h.first, h.second);
+        if (chunked) w.headers.insert("Transfer-Encoding", "chunked"); else w.headers.content_length(total);
+        w.keep_alive(keep);
+        for (auto n : sizes) { wrc.push_back(w.write(data.data() + at, n)); at += n; }
+        w.send();
+    }
+    Msg m{"wmsg", st.wr};
+    vt::Arr sz, hh; for (auto n : sizes) sz.i(n);
+    for (auto& h : hdrs) hh.raw("[" + bytes(h.first) + "," + bytes(h.second) + "]");
+    m.extra = "\"data\":" + bytes(data) + ",\"sizes\":" + sz.str() + ",\"wrc\":" + longs(wrc) + ",\"hdrs\":" + hh.str();
+    return m;
+}
+
+// ---- seeded random messages
+static const char* NAMES[] = {"Host", "Accept", "X-a", "x-b", "Content-Type", "Authorization", "Server", "Date", "ETag",
+                              "Proxy-Authenticate", "k", "Zz", "Yyyyyyyyy", "X-Forwarded-For", "If-None-Match", "Cookie"};
+static S rcase(vt::Rng& r, S s) { for (auto& c : s) if (r.coin(30)) { if (c >= 'a' && c <= 'z') c -= 32; else if (c >= 'A' && c <= 'Z') c += 32; } return s; }
+static S rvalue(vt::Rng& r) {
+    static const char cs[] = "abcXYZ019;=,/ -_.%\t\"";
+    size_t n = r.below(14); S v;
+    for (size_t i = 0; i < n; i++) v += cs[r.below(sizeof(cs) - 1)];
+    while (!v.empty() && (v.front() == ' ' || v.front() == '\t')) v.erase(0, 1);
+    while (!v.empty() && (v.back() == ' ' || v.back() == '\t')) v.pop_back();
+    return v;
+}
+static S rbody(vt::Rng& r, size_t n) {
+    static const unsigned char cs[] = {'a', 'b', 'z', '0', '9', ':', ' ', '\r', '\n', 0, 0xff, 0x80, 'f', 'F'};
+    S b; for (size_t i = 0; i < n; i++) b += (char)cs[r.below(sizeof cs)]; return b;
+}
+static S rchunked(vt::Rng& r, const S& body) {
+    S w; size_t at = 0;
+    while (at < body.size()) {
+        size_t n = 1 + r.below(std::min<size_t>(body.size() - at, 40));
+        char h[40]; snprintf(h, sizeof h, r.coin(20) ? "%zX" : r.coin(15) ? "0%zx" : "%zx", n);
+        w += h; if (r.coin(10)) w += ";x=1";
+        w += "\r\n" + body.substr(at, n) + "\r\n"; at += n;
+    }
+    w += r.coin(10) ? "000" : "0"; if (r.coin(10)) w += ";last";
+    return w + "\r\n\r\n";
+}
+static Msg random_msg(vt::Rng& r, size_t maxbody) {
+    bool req = r.coin(35);
+    S body = rbody(r, r.below(maxbody + 1));
+    int fr = r.below(req ? 3 : 5);      // 0 none, 1 length, 2 chunked, 3 close, 4 HTTP/1.0
+    S h; Msg m;
+    if (req) {
+        static const char* vs[] = {"GET", "POST", "PUT", "DELETE", "OPTIONS", "PATCH", "MKCALENDAR", "HEAD"};
+        static const char* ts[] = {"/", "/a/b?c=d&e", "*", "http://h:80/x", "/%20"};
+        S v = vs[r.below(8)];
+        if (v == "HEAD") fr = r.below(2);
+        h = v + " " + ts[r.below(5)] + (r.coin(80) ? " HTTP/1.1\r\n" : " HTTP/1.0\r\n");
+        m.kind = "req";
+        if (v == "HEAD") body.clear();
+    } else {
+        static const char* rs[] = {"", "OK", "Not Found", "a b  c", "Partial Content"};
+        static const int cs[] = {200, 206, 404, 500, 999, 100, 301};
+        h = S(fr == 4 ? "HTTP/1.0 " : "HTTP/1.1 ") + std::to_string(cs[r.below(7)]) + " " + rs[r.below(5)] + "\r\n";
+        m.kind = r.coin(8) ? "resph" : "resp";
+        if (m.kind == "resph") { body.clear(); if (fr > 2) fr = 1; }
+    }
+    std::vector<S> lines;
+    size_t nh = r.below(5);
+    for (size_t i = 0; i < nh; i++) lines.push_back(rcase(r, NAMES[r.below(16)]) + ":" + S(r.below(3), ' ') + rvalue(r));
+    S wire = body;
+    if (fr == 1) lines.push_back(rcase(r, "Content-Length") + ":" + S(r.below(2), ' ') + std::to_string(m.kind == "resph" ? r.below(50) : body.size()));
+    else if (fr == 2) { lines.push_back(rcase(r, "Transfer-Encoding") + ": chunked"); wire = m.kind == "resph" ? "" : rchunked(r, body); }
+    else if (fr == 3) lines.push_back(rcase(r, "Connection") + ": close");
+    else if (fr == 0) { wire.clear(); if (r.coin(30)) lines.push_back("Connection: keep-alive"); }
+    for (size_t i = lines.size(); i > 1; i--) std::swap(lines[i - 1], lines[r.below(i)]);
+    for (auto& l : lines) h += l + "\r\n";
+    m.bytes = h + "\r\n" + wire;
+    return m;
+}
+static S mutate(vt::Rng& r, S s) {
+    static const unsigned char cs[] = {'\r', '\n', ':', ' ', '0', 'a', 0, 0xff, 'F', ';'};
+    int k = 1 + r.below(2);
+    for (int i = 0; i < k && !s.empty(); i++) {
+        size_t p = r.below(s.size()); int op = r.below(4);
+        if (op == 0) s.erase(p, 1); else if (op == 1) s[p] = cs[r.below(sizeof cs)];
+        else if (op == 2) s.insert(p, 1, cs[r.below(sizeof cs)]); else s.resize(p);
+    }
+    return s;
+}
+
+// ---- large messages: header blocks near the limits of the 64 KB buffer, multi-kilobyte chunks.
+// Written as one line {"e":"L"}: the message as runs, the expected payload as runs, and the distinct outcomes.
+struct BigSpec { S kind; std::vector<std::pair<S, S>> hdrs; S startline; S bodywire; S payload; };
+static void big(const BigSpec& b, const std::vector<V32>& fragsets, const std::vector<V32>& rss, vt::Rng& rng) {
+    long id = ++g_id;
+    S head = b.startline;
+    vt::Arr hl;    // header lines as [name runs, spaces, value runs]
+    for (auto& h : b.hdrs) { hl.raw("[" + rle_bytes(h.first) + "," + rle_bytes(h.second) + "," + std::to_string(head.size()) + "]"); head += h.first + ": " + h.second + "\r\n"; }
+    head += "\r\n";
+    Msg m{b.kind, head + b.bodywire};
+    vt::note("big #" + std::to_string(id));
+    memset(g_buf, 0, g_cap);
+    g_big = true;
+    Runner R; R.m = &m; R.id = id; R.fills = {0};
+    for (auto& rs : rss) for (auto& c : fragsets) R.one(c, false, rs, false);
+    {
+        vt::Ev e("L"); e.i("id", id).s("kind", b.kind).raw("sl", bytes(b.startline)).raw("hl", hl.str()).i("hlen", head.size())
+            .i("blen", b.bodywire.size()).raw("pay", rle_bytes(b.payload)).i("cap", g_cap);
+        vt::Arr outs;
+        for (auto& k : R.order) {
+            auto& a = R.outs[k];
+            outs.raw("{\"n\":" + std::to_string(a.n) + ",\"mx\":" + std::to_string(a.mx) + ",\"ex\":" + ints(a.ex.size() > 40 ? V32(a.ex.begin(), a.ex.begin() + 40) : a.ex)
+                     + ",\"nex\":" + std::to_string(a.ex.size()) + "," + k + "}");
+        }
+        e.raw("outs", outs.str());
+    }
+    g_big = false;
+    g_cases += R.cases;
+}
 
 int main(int argc, char** argv) {
     vt::open(vt::arg(argc, argv, "--out", "-"));
+    struct sigaction sa; memset(&sa, 0, sizeof sa); sa.sa_handler = on_fault; sigemptyset(&sa.sa_mask); sa.sa_flags = SA_NODEFER;
+    sigaction(SIGSEGV, &sa, nullptr); sigaction(SIGBUS, &sa, nullptr);
     signal(SIGALRM, vt::on_fatal);
     uint64_t seed = strtoull(vt::arg(argc, argv, "--seed", "1"), 0, 10);
     bool thorough = !strcmp(vt::arg(argc, argv, "--tier", "quick"), "thorough");
@@ -315,30 +535,18 @@ int main(int argc, char** argv) {
     use_cap(65535);
     vt::Rng rng(seed);
     alarm(thorough ? 1500 : 300);
+    g_dcap = thorough ? 200 : 30;
     auto want = [&](const char* part) { return only.empty() || only == part; };
 
     if (want("msg")) {
-        // (A) complete messages through receive_header + read
-        std::vector<Msg> ms = {
-            {"resp", "HTTP/1.1 200 OK\r\nContent-Length: 5\r\n\r\nhello"},
-            {"resp", "HTTP/1.1 200 OK\r\nTransfer-Encoding: chunked\r\n\r\n3\r\nabc\r\n0\r\n\r\n"},
-            {"resp", "HTTP/1.1 200 OK\r\nConnection: close\r\n\r\nbye!"},
-            {"resp", "HTTP/1.0 200 OK\r\n\r\nxy"},
-            {"resp", "HTTP/1.1 404 Not Found\r\nB: 1\r\ncontent-length: 2\r\na:b\r\n\r\nhi"},
-            {"resp", "HTTP/1.1 204 No Content\r\n\r\n"},
-            {"resp", "HTTP/1.1 200 OK\r\nTRANSFER-ENCODING: chunked\r\nX-y:  z\r\n\r\na\r\n0123456789\r\n11\r\nABCDEFGHIJKLMNOPQ\r\n0\r\n\r\n"},
-            {"resph", "HTTP/1.1 200 OK\r\nContent-Length: 5\r\n\r\n"},
-            {"req", "GET /a?b=1 HTTP/1.1\r\nHost: x\r\n\r\n"},
-            {"req", "POST /p HTTP/1.1\r\nContent-Length: 3\r\n\r\nabc"},
-            {"req", "PUT /u HTTP/1.1\r\nhost: h\r\nTransfer-Encoding: chunked\r\n\r\n2\r\nhi\r\n1\r\n!\r\n0\r\n\r\n"},
-        };
-        Plan pl; pl.K = thorough ? 3 : 2; pl.rnd3 = thorough ? 2000 : 300; pl.fills = {0, '\r'}; pl.fillK = 1;
-        for (auto& m : ms) run_msg(m, pl, rng);
+        // (A) complete messages through receive_header + read: every cut set of <= K cuts x read sizes {1,2,5,inf}
+        Plan pl; pl.K = thorough ? 3 : 2; pl.rnd = thorough ? 2000 : 300; pl.fills = FILLS3; pl.fillK = 1;
+        for (auto& m : valid_heads()) run_msg(m, pl, rng);
     }
     if (want("body")) {
         // (B) body streams directly: chunk sizes {0,1,2,3,10,16,17}, at most 2 chunks; fixed length; close-delimited
         std::vector<size_t> cs = {1, 2, 3, 10, 16, 17};
-        Plan pl; pl.K = thorough ? 3 : 2; pl.rnd3 = thorough ? 500 : 100;
+        Plan pl; pl.K = thorough ? 3 : 2; pl.rnd = thorough ? 500 : 100;
         std::vector<Msg> ms;
         ms.push_back({"cbody", chunked_body({})});
         for (auto a : cs) ms.push_back({"cbody", chunked_body({a})});
@@ -347,7 +555,101 @@ int main(int argc, char** argv) {
         for (size_t n : {0, 1, 7, 20}) ms.push_back({"xbody", payload(n)});
         for (auto& m : ms) run_msg(m, pl, rng);
     }
-    vt::Ev("End").i("messages", g_id).i("cases", g_cases);
+    if (want("writer")) {
+        // (W) writers: pieces of size {0,1,2,3,10,16,17}, at most 2 pieces (+ one of 3); read back under every cut set of <= 2 cuts
+        std::vector<size_t> ws = {0, 1, 2, 3, 10, 16, 17};
+        Plan pl; pl.K = thorough ? 2 : 1; pl.rnd = thorough ? 200 : 40;
+        for (auto a : ws) run_msg(written_chunked({a}), pl, rng);
+        for (auto a : ws) for (auto b : ws) run_msg(written_chunked({a, b}), pl, rng);
+        run_msg(written_chunked({5, 1, 33}), pl, rng);
+        run_msg(written_chunked({}), pl, rng);
+        for (size_t d : {0, 4, 5, 40}) for (auto a : {0, 2, 3}) for (auto b : {0, 2, 3, 17}) run_msg(written_len({(size_t)a, (size_t)b}, d, (a + b + d) % 2), pl, rng);
+        run_msg(written_msg(true, {3, 17}, true, {{"X-a", "1"}}), pl, rng);
+        run_msg(written_msg(true, {}, false, {}), pl, rng);
+        run_msg(written_msg(false, {2, 5}, true, {{"Server", "s s"}, {"ETag", "\"x\""}}), pl, rng);
+        run_msg(written_msg(false, {4}, false, {}), pl, rng);
+        run_msg(written_msg(false, {}, true, {{"k", ""}}), pl, rng);
+    }
+    if (want("mal")) {
+        // (D) malformed input: every string over small alphabets as header block / start line / chunked body,
+        // truncations and single-byte mutations of the valid messages
+        Plan pl; pl.K = 1; pl.rss = RS_TWO; pl.fills = FILLS3; pl.fillK = 0;
+        Plan pb; pb.K = 1; pb.rss = RS_TWO;
+        std::vector<S> xs, ys, zs;
+        strings(S("\r\n: a"), thorough ? 6 : 4, xs);
+        for (auto& x : xs) { run_msg({"resp", "HTTP/1.1 200 \r\n" + x + "\r\n\r\n"}, pl, rng); run_msg({"req", "GET / HTTP/1.1\r\n" + x + "\r\n\r\n"}, pl, rng); }
+        strings(S("H/1. \r\n"), thorough ? 5 : 3, ys);
+        for (auto& y : ys) { run_msg({"resp", y + "\r\n\r\n"}, pl, rng); run_msg({"req", y + "\r\n\r\n"}, pl, rng); }
+        strings(S("\r\n02ag"), thorough ? 7 : 5, zs);
+        for (auto& z : zs) run_msg({"cbody", z}, pb, rng);
+        static const unsigned char subst[] = {'\r', '\n', ':', ' ', '0', 'a', 0, 0xff};
+        for (auto& m : valid_heads()) {
+            for (size_t k = 0; k < m.bytes.size(); k++) {
+                Msg t = m; t.bytes = m.bytes.substr(0, k); run_msg(t, pl, rng);
+                Msg d = m; d.bytes.erase(k, 1); run_msg(d, pl, rng);
+                for (size_t q = 0; q < (thorough ? sizeof subst : 2); q++) {
+                    Msg s = m; if ((unsigned char)s.bytes[k] != subst[q]) { s.bytes[k] = subst[q]; run_msg(s, pl, rng); }
+                    Msg i = m; i.bytes.insert(k, 1, subst[q]); run_msg(i, pl, rng);
+                }
+            }
+        }
+    }
+    if (want("random")) {
+        // (R) seeded random messages (valid by construction, and mutated), random fragmentations, random read-size patterns
+        int N = thorough ? 4000 : 500;
+        for (int i = 0; i < N; i++) {
+            Msg m = random_msg(rng, i % 10 == 0 ? 150 : 40);
+            if (i % 3 == 2) m.bytes = mutate(rng, m.bytes);
+            Plan pl; pl.K = (m.bytes.size() < 80) ? 1 : 0; pl.rnd = thorough ? 40 : 20; pl.fills = FILLS3; pl.fillK = 0;
+            pl.rss.clear();
+            pl.rss.push_back({(uint32_t)RS_INF}); pl.rss.push_back({1});
+            V32 pat; for (size_t q = 0, n = 1 + rng.below(3); q < n; q++) pat.push_back(1 + rng.below(40));
+            pl.rss.push_back(pat);
+            run_msg(m, pl, rng);
+        }
+    }
+    if (want("big")) {
+        // (L) large messages: many / long headers up to the limits of the 64 KB receive buffer, multi-kilobyte chunks and bodies
+        int N = thorough ? 60 : 16;
+        for (int i = 0; i < N; i++) {
+            BigSpec b; b.kind = "resp"; b.startline = "HTTP/1.1 200 OK\r\n";
+            int mode = i % 4;                         // 0: chunked, few headers; 1: length, many headers; 2: close, huge header block; 3: chunked + big block
+            size_t nh = mode == 0 ? rng.below(4) : mode == 1 ? 50 + rng.below(400) : 10 + rng.below(300);
+            size_t target = mode == 0 ? 200 : mode == 1 ? 3000 + rng.below(40000) : 52000 + rng.below(8400);
+            size_t per = nh ? std::max<size_t>(8, target / nh) : 0;
+            for (size_t k = 0; k < nh; k++) {
+                S name = S(1, (char)('A' + k % 24)) + S(1 + (k / 24) % 40, (char)('a' + (k / 24) % 24)) + "q";     // unique, without y/z
+                size_t vl = per > name.size() + 4 ? per - name.size() - 4 : 1;
+                b.hdrs.push_back({name, S(vl, (char)('0' + k % 10))});
+            }
+            std::vector<size_t> chunks; size_t blen = 0;
+            size_t nparts = 1 + rng.below(4);
+            for (size_t k = 0; k < nparts; k++) { size_t n = rng.coin(30) ? 1 + rng.below(20) : 1000 + rng.below(9000); chunks.push_back(n); blen += n; }
+            for (size_t k = 0; k < chunks.size(); k++) b.payload += S(chunks[k], (char)('a' + k));
+            if (mode == 0 || mode == 3) {
+                b.hdrs.insert(b.hdrs.begin() + rng.below(b.hdrs.size() + 1), {"Transfer-Encoding", "chunked"});
+                for (size_t k = 0; k < chunks.size(); k++) { char h[32]; snprintf(h, sizeof h, "%zx\r\n", chunks[k]); b.bodywire += S(h) + S(chunks[k], (char)('a' + k)) + "\r\n"; }
+                b.bodywire += "0\r\n\r\n";
+            } else if (mode == 1) { b.hdrs.insert(b.hdrs.begin() + rng.below(b.hdrs.size() + 1), {"content-length", std::to_string(blen)}); b.bodywire = b.payload; }
+            else { b.hdrs.insert(b.hdrs.begin() + rng.below(b.hdrs.size() + 1), {"Connection", "close"}); b.bodywire = b.payload; }
+            size_t hlen = b.startline.size() + 2; for (auto& h : b.hdrs) hlen += h.first.size() + h.second.size() + 4;
+            size_t L = hlen + b.bodywire.size();
+            std::vector<V32> fs;
+            fs.push_back({});                                                   // as much as each recv takes
+            fs.push_back({(uint32_t)hlen});                                     // head and body apart
+            { V32 c; for (uint32_t a = 1000; a < L; a += 1000) c.push_back(a); fs.push_back(c); }
+            { V32 c; for (uint32_t a = 4096; a < L; a += 4096) c.push_back(a); c.push_back(hlen - 2); std::sort(c.begin(), c.end()); fs.push_back(c); }
+            { V32 c; for (uint32_t a = 1; a < L; a++) c.push_back(a); fs.push_back(c); }       // one byte per recv
+            for (int q = 0; q < (thorough ? 12 : 5); q++) {
+                V32 c; uint32_t a = 0;
+                while (true) { a += 1 + (rng.coin(60) ? rng.below(5000) : rng.below(30)); if (a >= L) break; c.push_back(a); }
+                if (rng.coin()) for (uint32_t d = (hlen > 6 ? hlen - 6 : 0); d < hlen + 12 && d < L; d++) if (d) c.push_back(d);   // every byte around the end of the head
+                std::sort(c.begin(), c.end()); c.erase(std::unique(c.begin(), c.end()), c.end()); fs.push_back(c);
+            }
+            big(b, fs, {{(uint32_t)RS_INF}, {4096}, {1000, 1, 7}}, rng);
+        }
+    }
+    vt::Ev("End").i("messages", g_id).i("cases", g_cases).i("stale_dependent_cases", g_dsupp);
     vt::close();
     return 0;
 }
